@@ -5,6 +5,7 @@ package main
 
 import (
 	"encoding/json"
+	"math"
 	"math/rand"
 	"sort"
 	"time"
@@ -314,6 +315,7 @@ type forestRec struct {
 	Got    []int         `json:"got"`
 	NFaces int           `json:"nfaces"`
 	Per    []int         `json:"per"`
+	NF     []int         `json:"nf,omitempty"` // faces per node where the shells are not boxes (default 12 each)
 	Probes []forestProbe `json:"probes"`
 	Panic  string        `json:"panic"`
 	// model3d only: SelfIntersections of the nested shells / with a shifted copy of a root shell added
@@ -489,6 +491,114 @@ func forestRun(id int, parent []int, rng *rand.Rand) forestRec {
 	return rec
 }
 
+// hierOverlapRun: a box with two or three cavities that are NOT boxes - corner tetrahedra at two opposite corners
+// and an octahedron between them - so that the siblings are disjoint while their bounding boxes overlap
+func hierOverlapRun(id int, k int, rng *rand.Rand) forestRec {
+	parent := []int{0, 1, 1, 1}[:k+1]
+	rec := forestRec{ID: id, Kind: "forest", Site: "model3d.MeshToHierarchy", Parent: parent, Got: make([]int, len(parent)),
+		Per: make([]int, len(parent)), Probes: []forestProbe{}, NF: []int{12, 4, 4, 8}[:k+1]}
+	sc := [3]float64{1 + float64(rng.Intn(3)), 1 + float64(rng.Intn(3)), 1 + float64(rng.Intn(3))}
+	pt := func(x, y, z float64) model3d.Coord3D { return model3d.XYZ(x*sc[0], y*sc[1], z*sc[2]) }
+	mesh := model3d.NewMeshRect(pt(0, 0, 0), pt(10, 10, 10))
+	tetra := func(c, leg float64) *model3d.Mesh {
+		p0, px, py, pz := pt(c, c, c), pt(c+leg, c, c), pt(c, c+leg, c), pt(c, c, c+leg)
+		faces := [][3]model3d.Coord3D{{p0, py, px}, {p0, px, pz}, {p0, pz, py}, {px, py, pz}}
+		m := model3d.NewMesh()
+		for _, f := range faces {
+			if leg < 0 { // mirrored in all three axes: turn every face round
+				f[1], f[2] = f[2], f[1]
+			}
+			m.Add(&model3d.Triangle{f[0], f[1], f[2]})
+		}
+		return m
+	}
+	shells := []*model3d.Mesh{mesh.Copy(), tetra(1, 6), tetra(9, -6)}
+	if k == 3 {
+		o := model3d.NewMesh()
+		c := [3]float64{5, 5, 5}
+		for _, sx := range []float64{-2, 2} {
+			for _, sy := range []float64{-2, 2} {
+				for _, sz := range []float64{-2, 2} {
+					a, b, d := pt(c[0]+sx, c[1], c[2]), pt(c[0], c[1]+sy, c[2]), pt(c[0], c[1], c[2]+sz)
+					if sx*sy*sz < 0 {
+						a, b = b, a
+					}
+					o.Add(&model3d.Triangle{a, b, d})
+				}
+			}
+		}
+		shells = append(shells, o)
+	}
+	for _, sh := range shells[1:] {
+		mesh.AddMesh(sh)
+	}
+	rec.NFaces = 0
+	nodeOf := func(m *model3d.Mesh) int {
+		for v, sh := range shells {
+			if m.Min() == sh.Min() && m.Max() == sh.Max() {
+				return v + 1
+			}
+		}
+		return 0
+	}
+	var roots []*model3d.MeshHierarchy
+	outcome, pan := withDeadline(10*time.Second, func() { roots = model3d.MeshToHierarchy(mesh) })
+	if outcome != "ok" {
+		rec.Panic = outcome + " " + pan
+		return rec
+	}
+	rec.Panic = protect(func() {
+		for i := range rec.Got {
+			rec.Got[i] = -1
+		}
+		var walk func(h *model3d.MeshHierarchy, par int)
+		walk = func(h *model3d.MeshHierarchy, par int) {
+			v := nodeOf(h.Mesh)
+			if v > 0 {
+				rec.Got[v-1] = par
+				rec.Per[v-1] += h.Mesh.NumTriangles()
+			}
+			rec.NFaces += h.Mesh.NumTriangles()
+			for _, c := range h.Children {
+				walk(c, v)
+			}
+		}
+		for _, r := range roots {
+			walk(r, 0)
+		}
+		rec.SelfInt, rec.SelfIntX = 0, 1 // (self-intersections are observed on the box forests)
+		abs := math.Abs
+		for k2 := 0; k2 < 120; k2++ {
+			x, y, z := float64(rng.Intn(13)-1)+0.37, float64(rng.Intn(13)-1)+0.37, float64(rng.Intn(13)-1)+0.37
+			if k2%2 == 0 {
+				// inside the overlap of the cavities' bounding boxes
+				x, y, z = float64(3+rng.Intn(4))+0.37, float64(3+rng.Intn(4))+0.37, float64(3+rng.Intn(4))+0.37
+			}
+			pr := forestProbe{In: []int{}}
+			if x > 0 && x < 10 && y > 0 && y < 10 && z > 0 && z < 10 {
+				pr.In = append(pr.In, 1)
+			}
+			if x > 1 && y > 1 && z > 1 && (x-1)+(y-1)+(z-1) < 6 {
+				pr.In = append(pr.In, 2)
+			}
+			if x < 9 && y < 9 && z < 9 && (9-x)+(9-y)+(9-z) < 6 {
+				pr.In = append(pr.In, 3)
+			}
+			if k == 3 && abs(x-5)+abs(y-5)+abs(z-5) < 2 {
+				pr.In = append(pr.In, 4)
+			}
+			c := pt(x, y, z)
+			for _, r := range roots {
+				if r.Contains(c) {
+					pr.Hit = true
+				}
+			}
+			rec.Probes = append(rec.Probes, pr)
+		}
+	})
+	return rec
+}
+
 func forest2Run(id int, parent []int, rng *rand.Rand) forestRec {
 	rec := forestRec{ID: id, Kind: "forest", Site: "model2d.MeshToHierarchy", Parent: parent, Got: make([]int, len(parent)),
 		Per: make([]int, len(parent)), Probes: []forestProbe{}}
@@ -596,6 +706,21 @@ func init() {
 				for rep := 0; rep < a.int("reps", 2); rep++ {
 					id++
 					out.write(forestRun(id, parent, rng))
+				}
+				if len(parent) == 3 || len(parent) == 4 {
+					// once per forest size: cavities that are not boxes (two and three siblings)
+					star := true
+					for i, p := range parent {
+						if (i == 0) != (p == 0) || p > 1 {
+							star = false
+						}
+					}
+					if star {
+						for rep := 0; rep < a.int("reps", 2); rep++ {
+							id++
+							out.write(hierOverlapRun(id, len(parent)-1, rng))
+						}
+					}
 				}
 				ok2d := true
 				cnt := map[int]int{}
